@@ -15,6 +15,7 @@ def run(ctx):
     ctx.translate(COMPONENTS)
     ctx.prove('props/C04.v')
     L.lockstep(ctx, [L.mon_c04], want=['first_reg', 'second_reg', 'unreg_vs_deliver', 'unreg_vs_2deliver'])
+    L.reg_sweep(ctx, L.REG_KINDS['C04'])
     ctx.coverage['rule'] = ('previous disposition in {default, ignore, plain handler, siginfo handler} x a delivery at every boundary of a first registration '
                             '(incl. the window between sigaction and publication), of a second registration, of a concurrent first registration of another '
                             'signal; monitor: calls of the previous handler per delivery = 1 for handlers / 0 otherwise, before any action, right convention and pointers')
@@ -23,6 +24,8 @@ def run(ctx):
 def replay(ctx, path):
     case = json.load(open(path))
     sc = case.get('case', {}).get('scenario')
+    if case.get('case', {}).get('reg_sweep'):
+        return L.reg_replay(ctx, case['case'], L.REG_KINDS['C04'])
     if not sc:
         print(json.dumps(case, indent=1)[:3000])
         return 1
